@@ -132,3 +132,45 @@ def check_peak_wiring(prog: Program, res: Result, R: str) -> None:
                        f"`{q.split(':')[1]}` is built with {p} = {got if got is not None else 'the constructor default'}", f"{fi.module.relpath}:{c.lineno}")
     res.ob(R, n_ctor >= 4, "sleap_nn.inference.predictors", "the predictors build the four layers", f"only {n_ctor} layer constructions found", "")
     res.floor(R, 30)
+
+
+def check_numeric_hygiene(prog: Program, res: Result, R: str) -> None:
+    """Three conversions in peak_finding.py that decide WHAT is found, independent of the formulas:
+    (coords) peak coordinates come from integer subscripts and are converted to a fixed floating type; converting them to
+      the MAPS' dtype rounds x = 257 to 256 for bfloat16 maps (x = 2049 to 2048 for float16);
+    (fold) (samples, channels) are folded into one axis with reshape - `.view` raises for the channels-last / permuted /
+      sliced batches a network may return, so whether a peak is refined depends on the memory layout;
+    (patch) refinement patches are cut with kornia's default bilinear sampling; `mode="nearest"` turns the half-cell sampling
+      positions of even patch sizes into lopsided patches and biases every refined peak."""
+    pf = prog.modules[PF]
+    n = 0
+    for fi in prog.all_functions():
+        if fi.module is not pf:
+            continue
+        params = set(fi.params)
+        for c in walk_function(fi.node):
+            if not isinstance(c, ast.Call):
+                continue
+            if isinstance(c.func, ast.Attribute) and c.func.attr == "to" and c.args and isinstance(c.args[0], ast.Attribute) and c.args[0].attr == "dtype":
+                recv = astq.expand_at(fi.node, c.func.value, enclosing_stmt(c))
+                from_subs = any(isinstance(x, ast.Call) and norm(x.func).split(".")[-1] in ("where", "nonzero", "argwhere", "argmax", "unravel_index") for x in ast.walk(recv))
+                n += 1
+                res.touch(fi)
+                res.ob(R, not from_subs, fi.qualname, f"`{short(c, 40)}` does not cast subscripts to a tensor's dtype",
+                       f"`{short(c, 50)}` converts peak subscripts to the dtype of `{norm(c.args[0].value)}`: for reduced-precision confidence maps the coordinates are rounded to what "
+                       "that dtype can represent (257 -> 256 in bfloat16)", f"{fi.module.relpath}:{c.lineno}")
+            if isinstance(c.func, ast.Attribute) and c.func.attr == "view":
+                recv = astq.expand_at(fi.node, c.func.value, enclosing_stmt(c))
+                core = astq.peel(recv, "detach", "float", "to")
+                is_input = isinstance(core, ast.Name) and core.id in params and "cms" in core.id
+                n += 1
+                res.touch(fi)
+                res.ob(R, not is_input, fi.qualname, f"`{short(c, 40)}` is not a view of the caller's maps", f"`{short(c, 50)}` takes a `.view` of the confidence maps it was given: "
+                       "non-contiguous batches (channels-last, permuted, sliced) raise RuntimeError where reshape copies", f"{fi.module.relpath}:{c.lineno}")
+            if prog.resolve_call(fi, c) == "kornia.geometry.transform.crop_and_resize":
+                mode = next((k.value for k in c.keywords if k.arg == "mode"), None)
+                n += 1
+                res.touch(fi)
+                res.ob(R, mode is None or astq.const_value(mode) == "bilinear", fi.qualname, "patches are cut with bilinear sampling",
+                       f"crop_and_resize is called with mode={short(mode, 20) if mode is not None else ''}: refinement patches are no longer bilinear samples of the map", f"{fi.module.relpath}:{c.lineno}")
+    res.ob(R, n >= 2, PF, "conversion sites found", f"only {n} conversion sites found in peak_finding.py", "")
